@@ -3,6 +3,7 @@ import LicenseExpr.Model.Api
 import LicenseExpr.Model.Spec
 import LicenseExpr.Model.Sched
 import LicenseExpr.Model.World
+import LicenseExpr.Lemmas.Spelled
 /-!
 # Driver — line protocol over the executable model (one request per line, one reply per line)
 -/
@@ -311,6 +312,9 @@ def handle (st : DState) (op : String) (args : List SX) : DState × SX :=
       | none => .tag "keyerr")
   | "indexok", [table] => (st, SX.ofBool (indexOK c (decTable table)))
   | "namesunique", [table] => (st, SX.ofBool (namesUniqueB c (decTable table)))
+  | "premises", [table] =>      -- the table premises of C04_in_context / C02_text: OpWordFree, KwOwned, names unique
+    let T := decTable table
+    (st, .list [SX.ofBool (opWordFreeB c T), SX.ofBool (kwOwnedB c T), SX.ofBool (namesUniqueB c T)])
   | "symrel", [a, b] =>
     let x := decAtom a; let y := decAtom b
     (st, .list [SX.ofBool (x == y), SX.ofBool (x.lt y), SX.ofBool (y.lt x), SX.ofBool (x.containsA y)])
